@@ -41,6 +41,50 @@ func c04Scope(ctx *core.Ctx, idx int) core.Result {
 	return res
 }
 
+// c04Hof: closure plumbing (gen/hof.go) against the reference semantics.
+func c04Hof(ctx *core.Ctx, idx int) core.Result { return hofCase("C04", ctx, idx, -1) }
+
+func hofCase(prop string, ctx *core.Ctx, idx int, data int) core.Result {
+	r := core.CaseRng(ctx.Seed, prop+"/hof", idx)
+	stmts := gen.HofProgram(r, data)
+	opts := diffOpts{DoOut: idx%2 == 0, Stress: stressModes[(idx/2)%len(stressModes)], Residue: true, Globals: true}
+	d := runDiff(stmts, opts)
+	res := diffCase(prop, stmts, opts, d, map[string]any{"family": "hof"})
+	nobs := 0
+	for _, st := range stmts {
+		ast.Walk(st, func(x ast.Node) bool {
+			if _, ok := x.(ast.FuncLit); ok {
+				return false
+			}
+			if a, ok := x.(ast.Assign); ok && len(a.Name) == 4 && a.Name[:2] == "zv" {
+				nobs++
+			}
+			return true
+		})
+	}
+	res.Add("escaped_closures_called", nobs)
+	res.Add("closure_routes", countCalls(stmts, "zid", "zpick", "zhold", "zfirst"))
+	res.Nontrivial = d.Verdict == core.Held && nobs >= 2 && d.Stats.Calls >= 4
+	return res
+}
+
+func countCalls(stmts []ast.Node, fns ...string) int {
+	n := 0
+	for _, st := range stmts {
+		ast.Walk(st, func(x ast.Node) bool {
+			if c, ok := x.(ast.Call); ok {
+				for _, f := range fns {
+					if c.Fn == f {
+						n++
+					}
+				}
+			}
+			return true
+		})
+	}
+	return n
+}
+
 func c04Typed(ctx *core.Ctx, idx int) core.Result {
 	r := core.CaseRng(ctx.Seed, "C04/typed", idx)
 	o := gen.DefaultOpts()
@@ -65,6 +109,7 @@ func init() {
 			{Name: "corpus", Count: func(string) int { return len(corpusSessions()) * 2 * len(stressModes) }, Run: func(_ *core.Ctx, idx int) core.Result { return corpusCase("C04", idx, true) }},
 			{Name: "scope", Count: countFn(9000, 500000), Run: c04Scope},
 			{Name: "typed", Count: countFn(5000, 200000), Run: c04Typed},
+			{Name: "hof", Count: countFn(5000, 300000), Run: c04Hof},
 		},
 		Floors: []core.Floor{{Key: "statements_compared", Quick: 30000, Thor: 3000000}, {Key: "functions_defined", Quick: 8000, Thor: 800000}, {Key: "escaped_closures_called", Quick: 1000, Thor: 100000}, {Key: "tag:scope:", Quick: 2, Thor: 2}, {Key: "nontrivial", Quick: 3000, Thor: 300000}},
 	})
